@@ -30,7 +30,7 @@ func pipeWorld(r *R) {
 	}
 	buf := []int{0, 1, 1, 2, 3}[r.Choose(5, "buf")]
 	nSenders := 1 + r.Choose(3, "senders")
-	root := NewCtx(nil, "root")
+	root := RootCtx(r)
 	cs := &Calls{r: r}
 	sender, recv := stream.Pipe[int](buf)
 	bufClass := "buf0"
@@ -40,16 +40,44 @@ func pipeWorld(r *R) {
 
 	var cancellable []*Ctx
 	mkCtx := func(kind int, name string) *Ctx {
+		// a context may have been cancelled with a cause - a private error, or one of the values the
+		// pipe itself reports (Err() is context.Canceled all the same, and that is what Send and Next
+		// report) - and it may be the caller's own, uncomparable, Context implementation
+		var cause error
+		switch r.Choose(8, "ctx-cause") {
+		case 5:
+			cause = NewErr("cause")
+		case 6:
+			cause = stream.End
+		case 7:
+			cause = stream.ErrClosedPipe
+		}
+		if cause != nil && kind != 0 {
+			r.Probe("ctx-with-cause")
+		}
+		var c *Ctx
 		switch kind {
 		case 1:
-			c := NewCtx(root, name)
+			if cause != nil {
+				c = NewCauseCtx(root, name, cause)
+			} else {
+				c = NewCtx(root, name)
+			}
 			cancellable = append(cancellable, c)
-			return c
 		case 2:
 			r.Fault("ctx_precancelled")
-			return PreCancelled(root, name)
+			if cause != nil {
+				c = PreCancelledCause(root, name, cause)
+			} else {
+				c = PreCancelled(root, name)
+			}
+		default:
+			return root
 		}
-		return root
+		if r.Choose(6, "ctx-uncomparable") == 5 {
+			c.Uncomparable()
+		}
+		return c
 	}
 	ctxKind := func() int {
 		switch r.Choose(6, "ctxkind") {
@@ -328,6 +356,20 @@ func pipeWorld(r *R) {
 		return
 	}
 	// ---- phase 2: expire every context; everything must come back ----------------------------
+	if root.Uncancellable {
+		// (calls made with context.Background() that are still parked - nothing sent, nobody closed -
+		// have nothing to come back for)
+		for _, c := range cancellable {
+			c.Cancel()
+		}
+		sim.WaitStuck("pipe-phase2")
+		for _, c := range cs.Pending() {
+			if c.Ctx != root {
+				r.Violate("C10", "stuck/"+c.Kind+"/ctx-expired", "%s is still blocked although its context expired: %v", c.Kind, c)
+			}
+		}
+		return
+	}
 	root.Cancel()
 	sim.WaitStuck("pipe-phase2")
 	for _, c := range cs.Pending() {
